@@ -141,4 +141,25 @@ theorem roots_congr (P : Prog) {roots roots' : List Nat} (h : ∀ a, a ∈ roots
   · funext q; unfold numOf numTerm contributes undefIn evHolds model; simp only [h1, h2]
   · unfold undefOf undefTerm undefIn model; simp only [h1, h2]
 
+theorem zip_map_self {α β : Type} (f : α → β) (l : List α) : l.zip (l.map f) = l.map (fun a => (a, f a)) := by
+  induction l with
+  | nil => rfl
+  | cons a l ih => simp [ih]
+
+theorem evHolds_perm_evidence (P : Prog) (roots : List Nat) {ev ev' : List (Nat × Bool)} (h : ev.Perm ev')
+    (l : List Nat) : evHolds P roots ev l = evHolds P roots ev' l := by
+  unfold evHolds; exact h.all_eq
+
+/-- the order of the evidence list is irrelevant -/
+theorem run_perm_evidence (P : Prog) (queries : List Nat) {ev ev' : List (Nat × Bool)} (h : ev.Perm ev') :
+    run P queries ev' = run P queries ev := by
+  have hroots : ∀ a, a ∈ queries ++ ev'.map (·.1) ↔ a ∈ queries ++ ev.map (·.1) := by
+    intro a
+    simp only [List.mem_append, (h.map (·.1)).mem_iff]
+  obtain ⟨h1, h2, h3, h4⟩ := roots_congr P hroots ev'
+  have e := funext (evHolds_perm_evidence P (queries ++ ev.map (·.1)) h)
+  rw [run_eq_sums, run_eq_sums, h1, h2, h3, h4]
+  unfold zOf numOf zTerm numTerm contributes
+  simp only [e]
+
 end ProbLogProofs.SemRun
